@@ -227,6 +227,11 @@ func runC04(c *ctx) {
 				data: []resSpec{a1}, included: []resSpec{p1, c1}}
 			c04Case(c, d, "fixed")
 		}
+		// a URL without any selection (nil map): nothing is exposed
+		c04Case(c, docSpec{sc: sc, dataKind: "resources", prepath: "/p", urlFrags: []string{"articles"}, fields: nil, relData: allRD,
+			data: []resSpec{a1, c1}, included: []resSpec{p1}}, "fixed")
+		c04Case(c, docSpec{sc: sc, dataKind: "resource", prepath: "/p", urlFrags: []string{"articles", "a1"}, fields: nil, relData: allRD,
+			data: []resSpec{a1}, included: []resSpec{p1}}, "fixed")
 	}
 	n := 200
 	if c.thorough() {
